@@ -205,6 +205,13 @@ def parse_log(logp):
             calls.append((w[1], int(w[2])))
         elif w[0] in ("S", "F", "C", "T", "R", "O"):
             ops.append(tuple(w))
+        elif w[0] == "X":
+            # the file's length changed behind the stdio stream's back (preallocation / truncation through another descriptor):
+            # entered as a zero-length write AT the new length, so that crash states contain the zero fill and the schedule is
+            # no longer "one front-to-back pass"
+            if w[3] == "0":
+                ops.append(("W", int(w[2]), b""))
+            ops.append(("XLEN", w[1], w[2], w[3]))
     return ops, calls
 
 def coalesce(writes):
